@@ -410,7 +410,7 @@ impl Lmdb {
         let end_prefix = Self::key_ci_index(since, [255; 32].into());
         let range = (
             Bound::Included(&*start_prefix),
-            Bound::Excluded(&*end_prefix),
+            Bound::Included(&*end_prefix),
         );
         Ok(self.ci_index.range(txn, &range)?)
     }
@@ -432,7 +432,7 @@ impl Lmdb {
         let end_prefix = Self::key_tc_index(tagbyte, tagvalue, since, [255; 32].into());
         let range = (
             Bound::Included(&*start_prefix),
-            Bound::Excluded(&*end_prefix),
+            Bound::Included(&*end_prefix),
         );
         Ok(self.tc_index.range(txn, &range)?)
     }
@@ -448,7 +448,7 @@ impl Lmdb {
         let end_prefix = Self::key_ac_index(author, since, [255; 32].into());
         let range = (
             Bound::Included(&*start_prefix),
-            Bound::Excluded(&*end_prefix),
+            Bound::Included(&*end_prefix),
         );
         Ok(self.ac_index.range(txn, &range)?)
     }
@@ -465,7 +465,7 @@ impl Lmdb {
         let end_prefix = Self::key_akc_index(author, kind, since, [255; 32].into());
         let range = (
             Bound::Included(&*start_prefix),
-            Bound::Excluded(&*end_prefix),
+            Bound::Included(&*end_prefix),
         );
         Ok(self.akc_index.range(txn, &range)?)
     }
@@ -489,7 +489,7 @@ impl Lmdb {
         let end_prefix = Self::key_atc_index(author, tagbyte, tagvalue, since, [255; 32].into());
         let range = (
             Bound::Included(&*start_prefix),
-            Bound::Excluded(&*end_prefix),
+            Bound::Included(&*end_prefix),
         );
         Ok(self.atc_index.range(txn, &range)?)
     }
@@ -513,7 +513,7 @@ impl Lmdb {
         let end_prefix = Self::key_ktc_index(kind, tagbyte, tagvalue, since, [255; 32].into());
         let range = (
             Bound::Included(&*start_prefix),
-            Bound::Excluded(&*end_prefix),
+            Bound::Included(&*end_prefix),
         );
         Ok(self.ktc_index.range(txn, &range)?)
     }
